@@ -2,6 +2,7 @@ package vivid
 
 import (
 	"fmt"
+	"reflect"
 	"time"
 
 	"github.com/kercylan98/vivid/internal/messages"
@@ -106,14 +107,54 @@ type OnKill struct {
 	Poison bool     // 是否采用毒杀模式，true 时立即销毁，不处理剩余队列，false 时常规优雅下线。
 }
 
-func onKillReader(message any, reader *messages.Reader, codec messages.Codec) error {
+func onKillReader(message any, reader *messages.Reader, codec messages.Codec) (err error) {
 	m := message.(*OnKill)
-	return reader.ReadInto(&m.Killer, &m.Reason, &m.Poison)
+	if m.Killer, err = readActorRef(reader); err != nil {
+		return err
+	}
+	return reader.ReadInto(&m.Reason, &m.Poison)
 }
 
 func onKillWriter(message any, writer *messages.Writer, codec messages.Codec) error {
 	m := message.(*OnKill)
-	return writer.WriteFrom(m.Killer, m.Reason, m.Poison)
+	if err := writeActorRef(writer, m.Killer); err != nil {
+		return err
+	}
+	return writer.WriteFrom(m.Reason, m.Poison)
+}
+
+// writeActorRef 以"是否存在 + 地址 + 路径"的形式写入 ActorRef 字段。
+// ActorRef 是接口类型，通用的反射读写无法处理（写入端不产生任何字节，读取端拒绝接口类型），
+// 导致携带引用的生命周期消息（跨节点的 Kill、Watch 的死亡通知）无法被对端解码。
+func writeActorRef(writer *messages.Writer, ref ActorRef) error {
+	if ref == nil || reflect.ValueOf(ref).Kind() == reflect.Pointer && reflect.ValueOf(ref).IsNil() {
+		return writer.WriteFrom(false)
+	}
+	return writer.WriteFrom(true, ref.GetAddress(), ref.GetPath())
+}
+
+// readActorRef 读取 writeActorRef 写入的 ActorRef 字段，并通过 messages.RefFactory 重建引用。
+func readActorRef(reader *messages.Reader) (ActorRef, error) {
+	var exists bool
+	if err := reader.ReadInto(&exists); err != nil || !exists {
+		return nil, err
+	}
+	var address, path string
+	if err := reader.ReadInto(&address, &path); err != nil {
+		return nil, err
+	}
+	if messages.RefFactory == nil {
+		return nil, fmt.Errorf("actor ref factory is not registered")
+	}
+	ref, err := messages.RefFactory(address, path)
+	if err != nil {
+		return nil, err
+	}
+	actorRef, ok := ref.(ActorRef)
+	if !ok {
+		return nil, fmt.Errorf("actor ref factory returned %T", ref)
+	}
+	return actorRef, nil
 }
 
 // Pong 表示 Ping 消息的响应。
@@ -162,14 +203,15 @@ type OnKilled struct {
 	Ref ActorRef // 被终止的 ActorRef
 }
 
-func onKilledReader(message any, reader *messages.Reader, codec messages.Codec) error {
+func onKilledReader(message any, reader *messages.Reader, codec messages.Codec) (err error) {
 	m := message.(*OnKilled)
-	return reader.ReadInto(&m.Ref)
+	m.Ref, err = readActorRef(reader)
+	return err
 }
 
 func onKilledWriter(message any, writer *messages.Writer, codec messages.Codec) error {
 	m := message.(*OnKilled)
-	return writer.WriteFrom(m.Ref)
+	return writeActorRef(writer, m.Ref)
 }
 
 type StreamEvent any
